@@ -291,6 +291,9 @@ fn main() {
     if let Some(n) = arg(&args, "--w2n").and_then(|s| s.parse().ok()) {
         pl.w2_n = n;
     }
+    if let Some(n) = arg(&args, "--small-len").and_then(|s| s.parse().ok()) {
+        pl.small_len = n;
+    }
     if let Some(n) = arg(&args, "--c13").and_then(|s| s.parse().ok()) {
         pl.c13 = n;
     }
